@@ -96,6 +96,9 @@ def error_path_scenarios():
         scn("err-map-isel", SM("M", M=S.Mp(SM("A", A=P(End=True)), ItemSelector={"a.$": "States.Nope(1)"}, End=True)), inputs=([1, 2],)),
         scn("err-map-rsel", SM("M", M=S.Mp(SM("A", A=P(End=True)), ResultSelector={"a.$": "$.nothere"}, End=True)), inputs=([1],)),
         scn("err-map-empty-resultpath", SM("M", M=S.Mp(SM("A", A=P(End=True)), ItemsPath="$.items", ResultPath="$.a.b", End=True)), inputs=({"a": 5, "items": []},)),
+        scn("err-choice-outputpath", SM("A", A=dict(Ch([{"Variable": "$.x", "NumericEquals": 1, "Next": "B"}], "B"), OutputPath="$.nope"), B=P(End=True)), inputs=({"x": 1},)),
+        scn("err-succeed-outputpath", SM("A", A={"Type": "Succeed", "OutputPath": "$.nope"})),
+        scn("err-pass-outputpath", SM("A", A=P(OutputPath="$.nope", End=True))),
         scn("err-task-badservice-states", SM("A", A={"Type": "Task", "Resource": "arn:aws:states:::states:bogus", "End": True})),
         scn("err-task-badservice-sdk", SM("A", A={"Type": "Task", "Resource": "arn:aws:states:::aws-sdk:bogus", "End": True})),
         scn("err-task-badservice-rpc", SM("A", A={"Type": "Task", "Resource": "arn:aws:states:::rpcmessage:bogus", "End": True})),
